@@ -133,3 +133,10 @@ Example C12_ex_check_log :
   check_log [Class (bs "k_1")] [WAttr [FComp k1]] [IDef (Class (bs "k_1")); INames [bs "k_1"]] = false /\
   check_log [Class (bs "k_1")] [WAttr [FComp k1]] [INames [bs "k_1"]] = true.
 Proof. vm_compute. repeat split. Qed.
+
+(* templ.WithNonce anywhere in a rendering context changes the nonce of later script elements and nothing else:
+   the script defined before it is not defined again after it *)
+Example C12_ex_nonce_midway :
+  render (snd (run (init_reg (mkCfg [] None)) [ORender s1; ONonce (bs "n9"); ORender s1; OElem [] [s1]])) =
+  bs "<script>function f1(){}</script><script>f1()</script><script nonce=""n9"">f1()</script><div onclick=""f1()""></div>".
+Proof. vm_compute. reflexivity. Qed.
